@@ -61,7 +61,7 @@ func runC05(r *Result, d *drv.Driver, tier string, seed int64, replay string) {
 	if tier == "thorough" {
 		nValid = 600
 	}
-	r.Rule = fmt.Sprintf("per-call allocation (runtime.MemStats.TotalAlloc delta) of the real Decode on: valid messages; every item position of every message (string, bytes, structure, skipped, fixed) with its declared length replaced by each of {0, 1, 2^16, 2^20, 2^30, 2^31, 2^32-8, 2^32-1}, with and without truncating the input right after that header, and the same with every enclosing structure's length inflated consistently (so the lying item fits its parents); long values lying about their length while backed by 4-12 KiB of real payload; random mutations. "+
+	r.Rule = fmt.Sprintf("per-call allocation (runtime.MemStats.TotalAlloc delta) of the real Decode on: valid messages; every item position of every message (string, bytes, structure, skipped, fixed) with its declared length replaced by each of {0, 1, 2^16, 2^20, 2^30, 2^31, 2^32-8, 2^32-1}, with and without truncating the input right after that header, and the same with every enclosing structure's length inflated consistently (so the lying item fits its parents); long values lying about their length while backed by 4-12 KiB of real payload; random mutations; honest messages of 64 KiB, 512 KiB and 4 MiB (long byte string, long text string, long run of items) whose per-byte cost must not grow with their size (<= 4x the 64 KiB value + 8). "+
 		"Violation: allocation > %d x input length + %d bytes (the model's linear bound with A = %d). distinct = distinct input; non-trivial = carries a hostile length", allocA, allocB, allocA)
 	types := allDecodeTypes()
 	g := gen.New(seed)
@@ -181,4 +181,72 @@ func runC05(r *Result, d *drv.Driver, tier string, seed int64, replay string) {
 		}
 	}
 	r.Stats["worst-bytes-allocated-per-input-byte"] = int(worst)
+	c05Scaling(r)
+}
+
+// c05Scaling: honest messages - every declared length true - whose real size grows from 64 KiB to 4 MiB (one long byte string,
+// one long text string, one long run of small items). "A fixed linear function of the bytes available" means the cost per
+// received byte does not grow with the message: it is measured at each size, and the largest message may cost at most 4x per
+// byte what the smallest does (plus the model's bound, which is far looser). A reader that re-allocates its buffer by a fixed
+// step, or re-copies what it has for every chunk, is quadratic and fails this by orders of magnitude.
+func c05Scaling(r *Result) {
+	ver := kmip.ProtocolVersion{Major: 1, Minor: 4}
+	shapes := []struct {
+		name string
+		typ  string
+		mk   func(n int) interface{}
+	}{
+		{"Response / Decrypt with a Data byte string of n bytes", "Response", func(n int) interface{} {
+			return &kmip.Response{Header: kmip.ResponseHeader{Version: ver, TimeStamp: time.Unix(1000000000, 0), BatchCount: 1},
+				BatchItems: []kmip.ResponseBatchItem{{Operation: kmip.OPERATION_DECRYPT, ResponsePayload: kmip.DecryptResponse{UniqueIdentifier: "k", Data: bytes.Repeat([]byte{7}, n)}}}}
+		}},
+		{"Request / Get with a Unique Identifier text string of n bytes", "Request", func(n int) interface{} {
+			return &kmip.Request{Header: kmip.RequestHeader{Version: ver, BatchCount: 1},
+				BatchItems: []kmip.RequestBatchItem{{Operation: kmip.OPERATION_GET, RequestPayload: kmip.GetRequest{UniqueIdentifier: strings.Repeat("u", n)}}}}
+		}},
+		{"Request / Get Attributes with n/16 attribute names", "Request", func(n int) interface{} {
+			names := make([]string, n/16)
+			for i := range names {
+				names[i] = "x-name"
+			}
+			return &kmip.Request{Header: kmip.RequestHeader{Version: ver, BatchCount: 1},
+				BatchItems: []kmip.RequestBatchItem{{Operation: kmip.OPERATION_GET_ATTRIBUTES, RequestPayload: kmip.GetAttributesRequest{UniqueIdentifier: "k", AttributeNames: names}}}}
+		}},
+	}
+	types := allDecodeTypes()
+	sizes := []int{64 << 10, 512 << 10, 4 << 20}
+	for _, sh := range shapes {
+		var per []float64
+		var desc []string
+		for _, n := range sizes {
+			var eb bytes.Buffer
+			if err := kmip.NewEncoder(&eb).Encode(sh.mk(n)); err != nil {
+				r.find(Finding{Kind: "disagreement", What: "cannot encode the scaling message", Input: sh.name, Actual: err.Error()})
+				return
+			}
+			data := eb.Bytes()
+			key := fmt.Sprintf("scaling: %s, n=%d (message of %d bytes)", sh.name, n, len(data))
+			crumb("C05 " + key)
+			r.eval(key, true)
+			alloc, class := measureDecode(types[sh.typ], data)
+			r.Stats["scaling-measurements"]++
+			if class != "ok" {
+				r.find(Finding{Kind: "violation", What: "an honest large message was not decoded", Input: key, Expect: "ok", Actual: class})
+				return
+			}
+			c := float64(alloc) / float64(len(data))
+			per = append(per, c)
+			desc = append(desc, fmt.Sprintf("%d bytes -> %d allocated (%.1f per byte)", len(data), alloc, c))
+			if bound := uint64(allocA*len(data) + allocB); alloc > bound {
+				r.find(Finding{Kind: "violation", What: "Decode allocated more than the linear bound in the bytes received (honest large message)", Input: key, Expect: fmt.Sprintf("<= %d", bound), Actual: fmt.Sprint(alloc)})
+				return
+			}
+			if len(per) > 1 && c > 4*per[0]+8 {
+				r.find(Finding{Kind: "violation", What: "the allocation per received byte grows with the size of the message: not a fixed linear function of the bytes received", Input: key,
+					Expect: fmt.Sprintf("per-byte cost at most 4 x %.1f + 8 (its value for the 64 KiB message)", per[0]), Actual: strings.Join(desc, "; ")})
+				return
+			}
+		}
+		r.Notes = append(r.Notes, "scaling, "+sh.name+": "+strings.Join(desc, "; "))
+	}
 }
